@@ -134,7 +134,9 @@ def _judge_sched_one(case, o, replay, end):
             window = True
         if e["k"] == "srv_end":
             window = False
-        keys = FLAGS[:2] if window else FLAGS
+        # while a shutdown is in progress (explicit window, or the model's flag) the request-port thread may be
+        # anywhere between noticing the request and having ended: thread / socket are compared again at its end
+        keys = FLAGS[:2] if (window or m["state"]["shutdown_requested"] or e.get("synthetic")) else FLAGS
         if not m["enabled"] or any(e["state"][x] is not None and e["state"][x] != m["state"][x] for x in keys):
             return True, None, False, {"schedule": sub, "event_index": i, "event": e, "model": m}
     if not replay["all_done"] or any(f[x] is not None and f[x] != replay["final"][x] for x in FLAGS):
